@@ -1,6 +1,6 @@
 (* Proofs about M9 (Model/Config.v) and about _get_config_param as regenerated from the source. *)
 From Coq Require Import ZArith List Bool Lia ZifyBool Arith.
-Require Import JV.Base.PyPrelude JV.Model.Config JV.Gen.T_config_param JV.Gen.T_active_backend JV.Gen.T_mp_context.
+Require Import JV.Base.PyPrelude JV.Model.Config JV.Gen.T_config_param JV.Gen.T_active_backend JV.Gen.T_mp_context JV.Gen.T_backend_attrs JV.Gen.T_pool_settings.
 Import ListNotations.
 Open Scope Z_scope.
 
@@ -705,3 +705,22 @@ Definition abort_passes (k : ckind) : bool :=
 Lemma object_settings_constant_all : forall k ops r,
   abort_passes k = true /\ Forall (fun c => c = CFull r) (o_calls (orun (abort_passes k) ops (new_obj r))).
 Proof. intros k ops r. assert (abort_passes k = true) as E by (destruct k; reflexivity). rewrite E. split; [reflexivity|apply object_settings_constant]. Qed.
+
+(* ------------------------------------------------------ class attributes, temp folder, kwargs merge *)
+Lemma backend_flags_eq : forall k, src_supports_sharedmem k = supports_sharedmem k /\ src_uses_threads k = uses_threads k.
+Proof. intros []; split; reflexivity. Qed.
+
+(* the folder the pool really uses: the temp_folder it was given > JOBLIB_TEMP_FOLDER > /dev/shm when usable > the system one *)
+Lemma temp_folder_priority : forall arg env shm tmpdir,
+  src_temp_folder arg env shm tmpdir = Some (gcp arg env (gcp shm None tmpdir)).
+Proof. intros [a|] [e|] [sh|] d; reflexivity. Qed.
+
+(* kwargs of the call (what Parallel resolved and passes to configure) beat the kwargs carried by the backend object *)
+Lemma pool_kwarg_merge : forall obj call,
+  src_mp_pool_kwarg obj call = Some (gcp call obj 0) \/ (call = None /\ obj = None /\ src_mp_pool_kwarg obj call = None).
+Proof. intros [o|] [c|]; cbn; auto. Qed.
+
+Lemma pool_kwarg_merge_spec : forall obj call,
+  (forall v, call = Some v -> src_mp_pool_kwarg obj call = Some v /\ src_loky_executor_kwarg obj call = Some v) /\
+  (call = None -> src_mp_pool_kwarg obj call = obj /\ src_loky_executor_kwarg obj call = obj).
+Proof. intros [o|] [c|]; split; intros; try discriminate; try (inversion H; subst); split; reflexivity. Qed.
